@@ -62,13 +62,30 @@ fn scen(spec: RunSpec) -> ScenFut {
             c.adv_pct = 3;
             c.ticks_ms = vec![50, 500, 5_000, 61_000];
         });
+        // a fifth of the runs starve one node's requests (adversarial schedule: conflict-retry exhaustion)
+        let starve = !no_cas && sim::w(5) == 4;
+        if starve {
+            // node 0's requests are slow (injected delays on its requests only) and are passed over by the
+            // scheduler while the other nodes keep mutating the catalog at a steady pace: its CAS attempts
+            // conflict again and again, up to exhaustion of the 5 retries
+            sim::set_cfg(|c| {
+                c.starve_node = Some(0);
+                c.fault_nodes = vec![0];
+                c.fail_before_pm = 0;
+                c.fail_after_pm = 0;
+                c.delay_pm = 700;
+                c.delay_ms = vec![120, 250, 500];
+                c.fault_budget = 40;
+            });
+            sim::probe("starved-node-schedule");
+        }
         sim::log(format!("CONFIG nodes={nodes} no_cas={no_cas} profile={profile} post_gates={post}"));
         let base = sim::EPOCH_NS as i64;
         // generate workloads up front
         let mut all_paths: Vec<String> = Vec::new();
         let mut plans: Vec<Vec<Op>> = Vec::new();
         for n in 0..nodes {
-            let k = sim::w_range(3, 8);
+            let k = if starve { if n == 0 { 2 } else { 30 } } else { sim::w_range(3, 8) };
             let mut ops = Vec::new();
             let mut mine = 0;
             for _ in 0..k {
@@ -134,6 +151,9 @@ fn scen(spec: RunSpec) -> ScenFut {
             let recs = recs.clone();
             hs.push(tokio::spawn(async move {
                 for op in ops {
+                    if starve && n != 0 {
+                        tokio::time::sleep(std::time::Duration::from_millis(90)).await;
+                    }
                     let inv = sim::ev();
                     sim::log(format!("INVOKE n{n} {:?}", op));
                     let mut read = None;
